@@ -138,7 +138,7 @@ def work_zoo(plan):
 # ---- embedding sites ------------------------------------------------------------------------------------------------------
 
 SITES = ['AddVariable', 'SetEquationRightHandSide', 'AddCashFlow-eqn', 'AddTermToEquation', 'AddSupplier-eqn', 'GenerateAssetWeighting',
-         'AddGlobalEquation', 'AddVariable-self', 'AddTermToEquation-product', 'AddCashFlow-product-term', 'Equation-parsed-product']
+         'AddGlobalEquation', 'AddVariable-self', 'AddTermToEquation-after-blob', 'AddTermToEquation-product', 'AddCashFlow-product-term', 'Equation-parsed-product']
 TEMPLATES = ['{N}', '2*{N} + 1', '({N} - 3)*{N}', '{N}/4 + LOCALX']
 
 
@@ -150,7 +150,7 @@ def site_cases(tier):
                 for ti, t in enumerate(TEMPLATES):
                     if tier == 'quick' and ti in (2,) and ncountry == 1:
                         continue
-                    if site in ('AddTermToEquation', 'AddTermToEquation-product', 'AddCashFlow-product-term', 'Equation-parsed-product') and ti != 0:
+                    if site in ('AddTermToEquation', 'AddTermToEquation-after-blob', 'AddTermToEquation-product', 'AddCashFlow-product-term', 'Equation-parsed-product') and ti != 0:
                         continue
                     cases.append((site, when, ncountry, t))
     return cases
@@ -193,6 +193,13 @@ def build_site(case):
         host.AddTermToEquation('PROBE', 'LOCALX')
         host.AddTermToEquation('PROBE', N)
         expr = 'LOCALX + ' + N
+        owner, local = host, 'PROBE'
+    elif site == 'AddTermToEquation-after-blob':
+        # an opaque right-hand side (as AddVariable stores it) followed by appended terms
+        host.AddVariable('PROBE', 'probe', 'LOCALX*2')
+        host.AddTermToEquation('PROBE', N)
+        host.AddTermToEquation('PROBE', '-LOCALX')
+        expr = 'LOCALX*2 + ' + N + ' - LOCALX'
         owner, local = host, 'PROBE'
     elif site in ('AddTermToEquation-product', 'AddCashFlow-product-term', 'Equation-parsed-product'):
         # two requested names combined in a product/quotient that the framework stores as a (non-opaque) Term
